@@ -40,6 +40,10 @@ func apisimExec(r *Run) {
 	w.Open()
 	h := NewHist(r, w)
 	a.h = h
+	h.SoftChecks = true
+	// zero-work headers are C01's recorded known finding; with them the store would differ from the model on the
+	// unchanged tree and this engine's own oracles would report the consequences
+	r.Opt = withOpt(r.Opt, "nozero", "1")
 	cap := 0
 	if r.Tier == "quick" {
 		cap = 24
@@ -72,6 +76,9 @@ func apisimExec(r *Run) {
 		h.CheckStore("long-chain-final")
 	}
 	a.batch()
+	if h.Deferred != nil {
+		panic(violationPanic{h.Deferred})
+	}
 	r.Shape = append(h.ShapeLines(), fmt.Sprintf("excess=%d nt=%v", a.excess, a.nt))
 	switch r.Prop {
 	case "C02":
